@@ -205,6 +205,11 @@ func c07instanceFor(p *expr) *c07instance {
 	if p != nil {
 		opts = append(opts, buffer.Retry(p.String()))
 	}
+	if len(name)%2 == 1 {
+		// every other instance keeps 4 bytes of a response in memory: all its attempts' bodies ("attempt-N;") spill
+		// to a file - the discarded ones, the final one, and the one delivered when the attempts run out
+		opts = append(opts, buffer.MemResponseBodyBytes(4))
+	}
 	in.b, in.err = buffer.New(http.HandlerFunc(func(w http.ResponseWriter, r *http.Request) { in.cur.ServeHTTP(w, r) }), opts...)
 	c07instances[key] = in
 	return in
